@@ -629,6 +629,9 @@ class ModbusRtuProtocolCommand(ProtocolCommand):
 
     def trim_response(self, raw_response: bytes):
         """Trim raw response from header and checksum data"""
+        if len(raw_response) > 4 and raw_response[3] == MODBUS_READ_CMD:
+            # the payload length is announced in the header, bytes trailing the frame are not part of it
+            return raw_response[5:5 + raw_response[4]]
         return raw_response[5:-2]
 
     def get_offset(self, address: int):
